@@ -25,7 +25,7 @@ def make(pid, kind, extra_ops=(), extra_propose=None, handlers=None, runs_quick=
 
     def generate(seed, tier):
         rng = random.Random(seed)
-        cfg = hist.gen_config(rng, kind, tier, extra_ops=extra_ops)
+        cfg = hist.gen_config(rng, kind, tier, extra_ops=extra_ops, extra_weight=3.0)
         ops, gstats = hist.generate_history(rng, cfg, extra_propose=extra_propose)
         return {"kind": kind, "weighted": cfg["weighted"], "universe": cfg["universe"],
                 "cfg": {k: cfg[k] for k in ("labels", "wtype", "max_size", "md_density", "reject_rate", "profile", "length")},
